@@ -10,7 +10,9 @@ M = "NetqasmVerif.Props.C13"
 THEOREMS = [(M, "NQ.C13." + n) for n in [
     "inv_init", "inv_step", "reachable", "reachable_from_init", "no_sharing", "used_exact", "no_usedKey",
     "run_apps_other", "isolation", "stop_releases", "stop_keeps_others", "rejected_unchanged",
-    "double_init_rejected", "alloc_fresh"]]
+    "double_init_rejected", "alloc_fresh",
+    "inv_tick", "tick_subs_app", "tick_isolation", "schedule_isolation", "inv_istep", "reachable_interleaved",
+    "isolation_interleaved"]]
 TRANSLATORS = []
 LEVEL_TEXT = ("Lean theorems about the multi-application layer of Model/Exec.lean: the invariant (injective map "
               "(app, virtual) -> physical across all applications; used = mapped + held by the link layer; held "
@@ -18,6 +20,8 @@ LEVEL_TEXT = ("Lean theorems about the multi-application layer of Model/Exec.lea
               "every operation (init/stop application, every instruction whether it succeeds or faults, whole "
               "subroutines with any step bound, link-layer reservation, keep-responses under the explicit "
               "environment hypothesis), hence after every history of any length (induction over the op list); "
+              "the same for histories in which subroutines of several applications are in flight at once and are "
+              "resumed in any order, one instruction at a time (reachable_interleaved, schedule_isolation); "
               "isolation (an operation of application a leaves every b != a unchanged); stop releases all qubits "
               "and memory and the same id can be registered again; rejected registrations change nothing. "
               "Tie: differential correspondence of random/exhaustive histories (direct calls and QNodeController "
@@ -76,7 +80,9 @@ def run(ctx):
     res.rule = ("histories over <= 3 applications, unit modules 1..4: random walks of length 5..40 (init/stop, "
                 "subroutines biased to qalloc/qfree/classical writes, link-layer reservations, keep-responses), "
                 "every 4th through the QNodeController message handlers; exhaustive sequences over an 11-op alphabet "
-                "(2 apps, 2+1 qubits) to depth 3 (quick) / 4 (thorough); non-trivial = at least one qubit was "
+                "(2 apps, 2+1 qubits) to depth 3 (quick) / 4 (thorough); interleaved histories: 2-3 subroutines of "
+                "different applications in flight, resumed one instruction at a time in random order (and all "
+                "35 interleavings of two fixed subroutines), life-cycle operations in between; non-trivial = at least one qubit was "
                 "mapped at some point; distinct by history JSON")
     rng = ctx.rng
     drv = ctx.driver
@@ -92,7 +98,9 @@ def run(ctx):
         for o, st in zip(sc["ops"], model[:len(real)]):
             r = st["r"]
             kind = None
-            if "fault" in r and r["fault"]:
+            if o["k"] == "tick":
+                kind = r.get("kind") or r.get("o")
+            elif "fault" in r and r["fault"]:
                 kind = r["fault"]["kind"]
             elif "out" in r and r["out"].get("kind"):
                 kind = r["out"]["kind"]
@@ -147,6 +155,21 @@ def run(ctx):
             check(sc, "exhaustive")
             if len(res.failures) >= 5:
                 return res
+
+    # subroutines of different applications in flight at the same time
+    q0, r1, r2 = [2, 0], [0, 1], [0, 2]
+    sub_a = [["set"] + q0 + [0], ["qalloc"] + q0, ["set"] + r1 + [42], ["ret_reg"] + r1]
+    sub_b = [["set"] + r1 + [7], ["set"] + r2 + [2], ["array"] + r2 + [0]]
+    for pos in itertools.combinations(range(len(sub_a) + len(sub_b)), len(sub_b)):
+        ticks = [{"k": "tick", "i": 1 if t in pos else 0} for t in range(len(sub_a) + len(sub_b))]
+        check({"hw": False, "apps": [0, 1], "addrs": [0], "ops": [
+            {"k": "init", "a": 0, "n": 2}, {"k": "init", "a": 1, "n": 2},
+            {"k": "spawn", "a": 0, "p": sub_a}, {"k": "spawn", "a": 1, "p": sub_b}] + ticks}, "interleaved")
+    n_par = 8000 if ctx.thorough else 1200
+    for k in range(n_par):
+        check(H.par_scenario(rng, rng.choice([10, 20, 40])), "interleaved")
+        if len(res.failures) >= 5:
+            return res
 
     n_walks = 12000 if ctx.thorough else 1500
     for k in range(n_walks):
